@@ -6,8 +6,10 @@
    (a) the model [dec_out] is compared message by message;
    (b) independently: no panic, no nil element (all inputs); and when every input line is
        either strictly well-formed or not part of the grammar, the reports of the decoded
-       messages ([den_out]) must equal the reference reader's reports of the lines. *)
-From RP Require Import Lib.Base Lib.Sexp Lib.Strings Model.MsgOut Model.DecOut Spec.DenoteOut Spec.GrammarOut.
+       messages ([den_out]) must equal the reference reader's reports of the lines;
+       and (Spec/SysExactOut.v) the float32 values stored for CPUTemp/ExtTemp/CPUVoltage must be
+       the nearest-even float32 of the decimal numerals, of any length (wider than the theorems). *)
+From RP Require Import Lib.Base Lib.Sexp Lib.Strings Model.MsgOut Model.DecOut Spec.DenoteOut Spec.GrammarOut Spec.SysExactOut.
 From Coq Require Import String.
 Open Scope Z_scope.
 
@@ -49,6 +51,7 @@ Definition judge (netparse : bytes -> option bytes) (ls : list bytes) (out : opt
       let want := flat_map sem_out_line ls in
       if judgeable && negb (list_eqb report_eqb (flat_map den_out msgs) want)
       then v_specfail "c04-meaning" (L [])
+      else if negb (exact_floats_ok ls msgs) then v_specfail "c04-float-value" (L [])
       else
         match dec_out netparse ls with
         | Panic s => v_mismatch (L [sym "panic"; I s])
